@@ -187,7 +187,7 @@ class Remap(object):
     def floor(self, rule, n, why=''):
         r = self._m(rule)
         if r is not None:
-            self.R.floor(r, n, why)
+            self.R.floor(r, 1 if self.keys is not None else n, why)
 
     def exception(self, rule, *a, **k):
         r = self._m(rule)
